@@ -30,7 +30,7 @@ LEVEL_TEXT = ('Lean 4 theorems, for all input fields/offsets, samplings, tilt sh
               '(call_mask_matching), the call ends in ValueError iff the mask differs from the output array in EITHER dimension (call_mask_refused_iff), so an '
               'accepted mask has the output shape (accepted_mask_has_output_shape; former_mask_witness_refused: the 8x10 / 10x8 masks of the fixed finding are refused) — the '
               'defaults, the broadcasting, the guard, the threshold and both out_extent calls are regenerated from propagate_dft. For a common shift the sum over fields is '
-              'the Fraunhofer sum of Wavefront.field of the input (propagateDft_common_shift).')
+              'the Fraunhofer sum of Wavefront.field of the input (propagateDft_common_shift; propagateDft_common_real_shift with the split derived by np.fix: window centred at trunc(shift), value at g − shift).')
 LEVEL_NOTE = ('Partial: trunc on floats enters as the class operation TruncLike.trunc (Float truncation in the driver, floor/ceil by sign at R); '
               'the two are tied by the differential check of every split and by a probe of 8 adversarial doubles per case (integers +-1 ulp, halves, '
               '+-0.0, subnormals, up to 2**52) compared exactly with np.fix. oversample also scales the shift, which is C04\'s Field.shift. '
